@@ -27,7 +27,8 @@ Record regen_post (s : st) (o : nat) (ob : obj) (s' : st) : Prop := mkRegenPost 
   rg_cache_new : lookup (cache s') (KGen (supply s)) = Some o \/ lookup (cache s') (KGen (supply s)) = None;
   rg_cache_old : lookup (cache s') (o_id ob) = Some (length (heap s)) \/ lookup (cache s') (o_id ob) = None;
   rg_sub : forall e, In e (cache s') ->
-           In e (cache s) \/ e = (KGen (supply s), o) \/ e = (o_id ob, length (heap s)) }.
+           In e (cache s) \/ e = (KGen (supply s), o) \/ e = (o_id ob, length (heap s));
+  rg_keys : forall k, k <> o_id ob -> k <> KGen (supply s) -> key_kept s s' k \/ key_flushed s s' k }.
 
 Lemma replace_nth_app {A} (l : list A) x n v : n < length l ->
   replace_nth (l ++ x) n v = replace_nth l n v ++ x.
@@ -130,6 +131,18 @@ Proof.
   - intros e H. apply C2sub in H as [H|H].
     + apply C1sub in H as [H|H]; [left; exact H | right; left; exact H].
     + right; right. rewrite <- HlenC. exact H.
+  - intros k Hko Hkj. unfold key_kept, key_flushed.
+    cbn [heap graves pending now supply conf plan evs cache store set_pending hget].
+    destruct (C1k k Hkj) as [[A1 A2]|[A1 [ox1 [oba [A2 [A3 A4]]]]]];
+      destruct (C2k k Hko) as [[B1 B2]|[B1 [ox2 [obb [B2 [B3 B4]]]]]].
+    + left. split; [rewrite B1; exact A1 | rewrite B2; exact A2].
+    + right. split; [exact B1|]. exists ox2, obb. split; [|split; [exact B3 | exact B4]].
+      change (cache sD) with (cache sC) in B2. rewrite A1 in B2. exact B2.
+    + right. split; [rewrite B1; exact A1|]. exists ox1, oba. split; [exact A2|]. split.
+      * unfold hget in *. cbn [heap set_pending]. rewrite C2h. rewrite nth_error_app1; [exact A3|].
+        apply nth_error_Some. congruence.
+      * rewrite B2. change (store sD) with (store sC). rewrite A4, C2c, C1c. reflexivity.
+    + change (cache sD) with (cache sC) in B2. congruence.
 Qed.
 
 (* ------------------------------------------------- freshness of the next ID *)
